@@ -57,6 +57,10 @@ def lib_source(rng, p, deps, feats):
     out.append("fn %s_spat(s: %sS) -> int32 { let %sS { v: vv, w: ww } = s; match ww { \"a\" => vv, _ => vv + string_len(ww) } }" % (lo, p, p))
     out.append("fn %s_clo(n: int32) -> int32 { let r = ref(0); let add = |d: int32| { let _ = ref_set(r, ref_get(r) + d * n); ref_get(r) }; let _ = add(1); let c = ref(0); while ref_get(c) < 3 { let _ = add(ref_get(c)); ref_set(c, ref_get(c) + 1) }; add(2) }" % lo)
     out.append("fn %s_arr(n: int32) -> int32 { let a = [n, n + 1, n + 2]; let v: Vec[int32] = vec_new(); let v = vec_push(vec_push(v, array_get(a, 1)), array_get(a, 2)); vec_get(v, 0) * vec_len(v) + (n, (n + 1, true)).0 }" % lo)
+    # shapes whose serialised form has an empty or optional part: closures of no, one and several parameters, an empty tuple
+    # of captures, unit values, an empty array-free Vec, a function with no parameters
+    out.append("fn %s_unitf() -> unit { () }" % lo)
+    out.append("fn %s_thunk(n: int32) -> int32 { let base = n + %d; let th = || base * 2; let k0 = || %d; let two = |a: int32, b: int32| a - b; let u = %s_unitf(); let ev: Vec[int32] = vec_new(); th() + k0() + two(n, 1) + vec_len(ev) }" % (lo, k1, k2, lo))
     if deps:
         d = deps[0]
         # a value of a type of the dependency handed on to this package's importers (who may not import the dependency)
@@ -108,6 +112,7 @@ def gen_project(rng):
             "string_println(int32_to_string(%s::%s_spat(%s::%s_mk(%d))))" % (d, lo, d, lo, n),
             "string_println(int32_to_string(%s::%s_clo(%d)))" % (d, lo, n),
             "string_println(int32_to_string(%s::%s_arr(%d)))" % (d, lo, n),
+            "string_println(int32_to_string(%s::%s_thunk(%d)))" % (d, lo, n),
         ]
         if shape[d]:
             cands += ["string_println(%s::%s_via(%d))" % (d, lo, n), "string_println(int32_to_string(%s::%s_gen(%d)))" % (d, lo, n)]
